@@ -66,6 +66,7 @@ def apiAfterClose : ApiPc → Bool
 def apiNeedsClosed : ApiPc → Bool
   | .cJoin => true
   | .cEof => true
+  | .cRet => true
   | _ => false
 
 def apiDropped : ApiPc → Bool
@@ -116,6 +117,7 @@ structure Inv (cfg : Cfg) (s : State) : Prop where
   eofOK : s.closed = true → s.err = false → s.api ≠ .cJoin → s.api ≠ .cEof → s.eof = true
   rep : ∀ it, s.em ≠ .latch it ∧ s.em ≠ .pushx it
   cur : pcOp s.api s.cur
+  eofClosed : s.eof = true → s.closed = true
 
 theorem Cfg.n_ge_two (cfg : Cfg) : 2 ≤ cfg.n := by
   unfold Cfg.n; split <;> omega
